@@ -226,6 +226,42 @@ pub mod kernels {
         RoundedRectangle::new(Rectangle::new(anchor(), sz), cr)
     }
     c05_row!(c05_q_k_rrect_fit_row_3, fitting_rr(2), hk::rounded_rectangle_scanline_at, 2, true, 7);
+    /// LISTED larger rounded rectangles with narrow tall / flat wide corners (one per corner position),
+    /// SYMBOLIC row and column: the scanline of the row equals contains(). Together with the loop-free
+    /// contains() claims of C18 (half-pixel band) this carries the band over to what is enumerated/drawn.
+    macro_rules! c05_row_listed {
+        ($name:ident, $unw:expr, [$($shape:expr),+ $(,)?]) => {
+            #[cfg_attr(kani, kani::proof, kani::unwind($unw))]
+            pub fn $name() {
+                let dy = small_u(6) as i32;
+                let dx = small_u(5) as i32;
+                note!("dy", dy); note!("dx", dx);
+                $( {
+                    let s: RoundedRectangle = $shape;
+                    let bb = s.bounding_box();
+                    if (dy as u32) < bb.size.height {
+                        let (x, y) = (bb.top_left.x - 2 + dx, bb.top_left.y + dy);
+                        let r = hk::rounded_rectangle_scanline_at(&s, y);
+                        note!("shape", s); note!("row", r);
+                        let hit = match &r { Some(r) => r.contains(&x), None => false };
+                        check!(hit == s.contains(Point::new(x, y)), "C05.row_exact");
+                        check!(hit == s.contains(Point::new(x, y)), "C18.rr_row_eq_contains");
+                    }
+                } )+
+                reach!(dy == 49, "reach.last_row");
+            }
+        };
+    }
+    fn one_corner(tl: Point, w: u32, h: u32, which: u32, r: Size) -> RoundedRectangle {
+        let z = Size::zero();
+        RoundedRectangle::new(Rectangle::new(tl, Size::new(w, h)), CornerRadii {
+            top_left: if which == 0 { r } else { z }, top_right: if which == 1 { r } else { z },
+            bottom_right: if which == 2 { r } else { z }, bottom_left: if which == 3 { r } else { z } })
+    }
+    c05_row_listed!(c05_c18_q_k_rrect_row_narrow_corners, 16, [
+        one_corner(Point::new(0, 0), 12, 50, 0, Size::new(2, 20)), one_corner(Point::new(-3, -2), 12, 50, 1, Size::new(2, 20)),
+        one_corner(Point::new(0, 0), 12, 50, 2, Size::new(2, 20)), one_corner(Point::new(-3, -2), 12, 50, 3, Size::new(2, 20)),
+    ]);
     #[cfg(feature = "thorough")]
     c05_row!(c05_t_k_rrect_fit_row_7, fitting_rr(3), hk::rounded_rectangle_scanline_at, 3, true, 11);
     #[cfg(feature = "thorough")]
